@@ -581,7 +581,7 @@ func c15Scenario(r *VRand, st *VStream, stats *VStats, nOps int, outOfBounds boo
 		offs[i] = c15PickOff(r, tol)
 	}
 	if outOfBounds {
-		// a sorting latency at or beyond the code's time.Hour sentinel
+		// a sorting latency at or beyond time.Hour
 		offs[r.Intn(n)] = c15Hour - int64(r.Intn(3)) + int64(r.Intn(2))*1000
 		stats.Inc("scenario.offset_at_hour_sentinel")
 	}
@@ -628,9 +628,9 @@ func TestVerifC15(t *testing.T) {
 	}
 	stats.Add("ops", st.N)
 
-	// separate stream: scenarios outside the hypotheses of the theorems (sorting latency >= 1h)
+	// separate stream: one offset at/around time.Hour (the former sentinel of the minimum scans)
 	st2 := VOpenStream("c15oob")
-	// scripted witness of nil_iff_no_alive_full_fails (design_notes/C15.md, finding c15-hour-sentinel):
+	// regression witness of fix addc261 (former finding c15-hour-sentinel, design_notes/C15.md):
 	// two nodes, node 0 carries add_latency = 1h; node 1 dies for tcp4; node 0 is probed fine.
 	{
 		w := c15NewWorld(st2, stats, 2, false)
